@@ -32,7 +32,7 @@ ServerKit(loop, handler=None, *, app=None, mode="server"|"app", handler_cancella
     .close()                        runner.cleanup() / server.shutdown() driven to completion
 
 Conn                                one RequestHandler attached to a SrvTransport
-    .proto .tr .name
+    .proto .tr .name .start_task (the start() task, for tear-down only)
     .feed(data) / .eof() / .drop(exc)      immediate transport-level calls (use IterLoop.io to
                                            make them I/O handles)
     .delivered    bytes handed to data_received so far (not those held back while paused)
@@ -67,9 +67,13 @@ UNIT                                 one body unit (also unparsable as a request
 BAD_HEADS / POISON_PARSE / POISON_FACTORY / JUNK     malformed members
 
 split_responses(wire, *, head_ids=(), connect_ids=()) -> [RespRec dict]       independent minimal response framer
-    status line, Content-Length / chunked / close-delimited, 1xx/204/304 bodiless; fields:
+    status line, Content-Length / chunked / close-delimited, 1xx/204/304 (and HEAD ids) bodiless,
+    2xx to a CONNECT id = tunnel (rest of the wire is tunnel data); fields:
     start hend end complete status minor sl (status line bytes) cl te close id fr chunks bodylen
-    garbage.  The TLA+ monitors re-check the arithmetic of these records.
+    garbage; fr in none|cl|chunked|close|tunnel.  A close-delimited response is reported
+    complete=False: the caller decides (complete iff the server closed).  The TLA+ monitors
+    re-check the arithmetic of these records.
+quiet_logger()                       logger that swallows the server's tracebacks (default for ServerKit)
 
 teardown(conn, script, it)           disconnect, cancel handlers, collect loop exception contexts
 """
